@@ -57,73 +57,95 @@ def gen_regions(rng, n):
     return regs
 
 
+def gen_ts(rng, p=0.8):
+    """timespan [b, e) in seconds on a 5 s lattice (equal / nested / touching / disjoint), or NULL"""
+    if rng.random() >= p:
+        return None
+    b = rng.choice([0, 5, 10, 15])
+    return [b, b + rng.choice([5, 10])]
+
+
 def gen_population(rng, meta: Meta, nreg, dangling=False):
     """final records: {element: [(vals, rid)]}; every foreign key satisfied (the schema enforces it)"""
     P = {e: [] for e in ORDER}
     rid = lambda p=0.8: (rng.randrange(nreg) if rng.random() < p else None)   # noqa: E731
+    tsp = lambda: gen_ts(rng)                                                   # noqa: E731
     insts = [1, 2] if rng.random() < 0.7 else [1]
     bands = [1, 2, 3]
     for i in insts:
-        P["instrument"].append(({"instrument": i}, None))
+        P["instrument"].append(({"instrument": i}, None, None))
     for s in ([1, 2] if rng.random() < 0.5 else [1]):
-        P["skymap"].append(({"skymap": s}, None))
+        P["skymap"].append(({"skymap": s}, None, None))
         for t in rng.sample([1, 2, 3], rng.randint(1, 2)):
-            P["tract"].append(({"skymap": s, "tract": t}, rid()))
-            for p in rng.sample([0, 1, 2], rng.randint(0, 2)):
-                P["patch"].append(({"skymap": s, "tract": t, "patch": p}, rid()))
+            P["tract"].append(({"skymap": s, "tract": t}, rid(), None))
+            for p in rng.sample([0, 1, 2], rng.randint(0 if P["patch"] else 1, 2)):
+                P["patch"].append(({"skymap": s, "tract": t, "patch": p}, rid(), None))
     used_bands = set()
     for i in insts:
         for d in rng.sample([1, 2, 3], rng.randint(1, 2)):
-            P["detector"].append(({"instrument": i, "detector": d}, None))
+            P["detector"].append(({"instrument": i, "detector": d}, None, None))
         for d in rng.sample([5, 6], rng.randint(1, 2)):
-            P["day_obs"].append(({"instrument": i, "day_obs": d}, None))
+            P["day_obs"].append(({"instrument": i, "day_obs": d}, None, tsp()))
         for g in rng.sample([1, 2], rng.randint(1, 2)):
-            P["group"].append(({"instrument": i, "group": g}, None))
+            P["group"].append(({"instrument": i, "group": g}, None, None))
         for f in rng.sample([1, 2, 3], rng.randint(1, 2)):
             b = rng.choice(bands[:2])
             used_bands.add(b)
-            P["physical_filter"].append(({"instrument": i, "physical_filter": f, "band": b}, None))
-        for v in rng.sample([0, 1], rng.randint(0, 2)):
-            P["visit_system"].append(({"instrument": i, "visit_system": v}, None))
+            P["physical_filter"].append(({"instrument": i, "physical_filter": f, "band": b}, None, None))
+        for v in rng.sample([0, 1], rng.randint(0 if P["visit_system"] else 1, 2)):
+            P["visit_system"].append(({"instrument": i, "visit_system": v}, None, None))
         pfs = [r[0]["physical_filter"] for r in P["physical_filter"] if r[0]["instrument"] == i]
         dos = [r[0]["day_obs"] for r in P["day_obs"] if r[0]["instrument"] == i]
         grs = [r[0]["group"] for r in P["group"] if r[0]["instrument"] == i]
         for v in rng.sample([1, 2, 3, 4], rng.randint(1, 3)):
-            P["visit"].append(({"instrument": i, "visit": v, "day_obs": rng.choice(dos), "physical_filter": rng.choice(pfs)}, rid()))
-        for x in rng.sample([1, 2, 3], rng.randint(0, 2)):
-            P["exposure"].append(({"instrument": i, "exposure": x, "day_obs": rng.choice(dos), "group": rng.choice(grs),
-                                   "physical_filter": rng.choice(pfs)}, None))
+            P["visit"].append(({"instrument": i, "visit": v, "day_obs": rng.choice(dos), "physical_filter": rng.choice(pfs)}, rid(), tsp()))
+        myvis = [r[0] for r in P["visit"] if r[0]["instrument"] == i]
+        linked = set()
+        for x in rng.sample([1, 2, 3], rng.randint(0 if P["exposure"] else 1, 2)):
+            # most exposures belong to a visit (same day_obs and physical filter, as in real data); some are unrelated
+            if rng.random() < 0.75:
+                v = rng.choice(myvis)
+                do, pf = v["day_obs"], v["physical_filter"]
+                if rng.random() < 0.9:
+                    linked.add((x, v["visit"]))
+            else:
+                do, pf = rng.choice(dos), rng.choice(pfs)
+            P["exposure"].append(({"instrument": i, "exposure": x, "day_obs": do, "group": rng.choice(grs),
+                                   "physical_filter": pf}, None, tsp()))
         vis = [r[0]["visit"] for r in P["visit"] if r[0]["instrument"] == i]
         exs = [r[0]["exposure"] for r in P["exposure"] if r[0]["instrument"] == i]
         dets = [r[0]["detector"] for r in P["detector"] if r[0]["instrument"] == i]
         vss = [r[0]["visit_system"] for r in P["visit_system"] if r[0]["instrument"] == i]
         for x in exs:
             for v in vis:
-                if rng.random() < 0.5:
-                    P["visit_definition"].append(({"instrument": i, "exposure": x, "visit": v}, None))
+                if (x, v) in linked or rng.random() < 0.25:
+                    P["visit_definition"].append(({"instrument": i, "exposure": x, "visit": v}, None, None))
         for v in vis:
             for d in dets:
                 if rng.random() < 0.6:
-                    P["visit_detector_region"].append(({"instrument": i, "detector": d, "visit": v}, rid(0.85)))
+                    P["visit_detector_region"].append(({"instrument": i, "detector": d, "visit": v}, rid(0.85), None))
             for s in vss:
                 if rng.random() < 0.6:
-                    P["visit_system_membership"].append(({"instrument": i, "visit_system": s, "visit": v}, None))
+                    P["visit_system_membership"].append(({"instrument": i, "visit_system": s, "visit": v}, None, None))
     for b in sorted(used_bands):
-        for s in rng.sample([1, 2], rng.randint(0, 2)):
-            P["subfilter"].append(({"band": b, "subfilter": s}, None))
+        for s in rng.sample([1, 2], rng.randint(0 if P["subfilter"] else 1, 2)):
+            P["subfilter"].append(({"band": b, "subfilter": s}, None, None))
     if dangling:
-        P["subfilter"].append(({"band": 3, "subfilter": 1}, None))      # band 3 is the band of no physical_filter
+        P["subfilter"].append(({"band": 3, "subfilter": 1}, None, None))      # band 3 is the band of no physical_filter
     return P
 
 
-def mkop(k, e, vals, rid):
-    return {"k": k, "e": e, "vals": dict(vals), "rid": rid}
+def mkop(k, e, vals, rid, ts=None):
+    return {"k": k, "e": e, "vals": dict(vals), "rid": rid, "ts": list(ts) if ts is not None else None}
 
 
-def variant(rng, meta, P, e, vals, rid, nreg):
-    """another version of the same record: same key, different region and/or implied value"""
+def variant(rng, meta, P, e, vals, rid, nreg, ts=None):
+    """another version of the same record: same key, different region and/or implied value and/or timespan"""
     v = dict(vals)
     r = rid
+    t = ts
+    if meta.el[e].get("temporal") and rng.random() < 0.5:
+        t = rng.choice([x for x in ([0, 5], [5, 15], [10, 20], [15, 20], None) if x != ts])
     if meta.el[e]["spatial"] and rng.random() < 0.8:
         r = rng.choice([x for x in list(range(nreg)) + [None] if x != rid])
     for imp in meta.el[e]["implied"]:
@@ -134,22 +156,22 @@ def variant(rng, meta, P, e, vals, rid, nreg):
                 cand = [q[0][imp] for q in P[imp] if q[0].get("instrument") == vals.get("instrument")]
                 if cand:
                     v[imp] = rng.choice(cand)
-    return v, r
+    return v, r, t
 
 
-def noise(rng, meta, P, e, vals, rid, nreg):
+def noise(rng, meta, P, e, vals, rid, nreg, ts=None):
     """operations that must leave the state alone"""
     c = rng.random()
     if c < 0.3:
-        return mkop("insert", e, vals, rid)                                  # duplicate key: IntegrityError
+        return mkop("insert", e, vals, rid, ts)                              # duplicate key: IntegrityError
     if c < 0.5:
-        return mkop("sync", e, vals, rid)                                    # identical: returns False
+        return mkop("sync", e, vals, rid, ts)                                # identical: returns False
     if c < 0.7:
-        v, r = variant(rng, meta, P, e, vals, rid, nreg)
-        return mkop("sync", e, v, r)                                         # differs: ConflictingDefinitionError (or same)
+        v, r, t = variant(rng, meta, P, e, vals, rid, nreg, ts)
+        return mkop("sync", e, v, r, t)                                      # differs: ConflictingDefinitionError (or same)
     if c < 0.85 and "instrument" in vals and e != "instrument":
         v = dict(vals, instrument=9)
-        return mkop(rng.choice(["insert", "sync", "replace"]), e, v, rid)    # parent missing: IntegrityError
+        return mkop(rng.choice(["insert", "sync", "replace"]), e, v, rid, ts)    # parent missing: IntegrityError
     return mkop("insert", "band", {"band": 1}, None)                        # TypeError: band has no table
 
 
@@ -159,32 +181,32 @@ def history(rng, meta, P, nreg, flavour):
     for e in ORDER:
         recs = list(P[e])
         rng.shuffle(recs)
-        for vals, rid in recs:
+        for vals, rid, ts in recs:
             if flavour == "plain":
-                ops.append(mkop("insert", e, vals, rid))
+                ops.append(mkop("insert", e, vals, rid, ts))
                 continue
             c = rng.random()
             first = "skip" if (flavour == "skip" and rng.random() < 0.5) else "insert"
             if c < 0.3:
-                ops.append(mkop("sync", e, vals, rid))
+                ops.append(mkop("sync", e, vals, rid, ts))
             elif c < 0.5:
-                ops.append(mkop(first, e, vals, rid))
+                ops.append(mkop(first, e, vals, rid, ts))
             else:
-                v, r = variant(rng, meta, P, e, vals, rid, nreg)
-                ops.append(mkop(rng.choice([first, "sync"]), e, v, r))
-                fix = mkop(rng.choice(["replace", "syncupd"]), e, vals, rid)
+                v, r, t = variant(rng, meta, P, e, vals, rid, nreg, ts)
+                ops.append(mkop(rng.choice([first, "sync"]), e, v, r, t))
+                fix = mkop(rng.choice(["replace", "syncupd"]), e, vals, rid, ts)
                 (late if rng.random() < 0.5 else ops).append(fix)
             if rng.random() < 0.25:
-                ops.append(noise(rng, meta, P, e, vals, rid, nreg))
+                ops.append(noise(rng, meta, P, e, vals, rid, nreg, ts))
             if flavour == "skip" and rng.random() < 0.2 and not late:
-                ops.append(mkop("skip", e, vals, rid))                        # existing, identical: nothing to do
+                ops.append(mkop("skip", e, vals, rid, ts))                    # existing, identical: nothing to do
     rng.shuffle(late)
     ops += late
     if flavour == "skip":
         for e in ORDER:
-            for vals, rid in P[e]:
+            for vals, rid, ts in P[e]:
                 if rng.random() < 0.15:
-                    ops.append(mkop("skip", e, vals, rid))
+                    ops.append(mkop("skip", e, vals, rid, ts))
     return ops
 
 
@@ -193,10 +215,10 @@ def skipdiff_history(rng, meta, P, nreg):
     ops = history(rng, meta, P, nreg, "plain")
     extra = []
     for e in ("visit", "tract", "patch", "visit_detector_region"):
-        for vals, rid in P[e]:
+        for vals, rid, ts in P[e]:
             other = [x for x in range(nreg) if x != rid]
             if other and (rid is None or rng.random() < 0.5):
-                extra.append(mkop("skip", e, vals, rng.choice(other)))
+                extra.append(mkop("skip", e, vals, rng.choice(other), ts))
     return ops + extra
 
 
@@ -220,7 +242,7 @@ def expected_rows(meta: Meta, group, P, ov_pairs):
             vals = pf_bands if info["view_of"] == "physical_filter" and d == "band" else []
         else:
             vals = []
-            for r, _ in P[d]:
+            for r, *_ in P[d]:
                 if all(r[k] == a[k] for k in meta.cols(d) if k != d):
                     vals.append(r[d])
         for v in vals:
@@ -237,14 +259,14 @@ def expected_rows(meta: Meta, group, P, ov_pairs):
             if info["is_dimension"]:
                 continue                    # existence and implied values were imposed while enumerating
             if info["always_join"] or info["implied"]:
-                if not any(all(r[k] == a[k] for k in meta.cols(e)) for r, _ in P[e]):
+                if not any(all(r[k] == a[k] for k in meta.cols(e)) for r, *_ in P[e]):
                     ok = False
                     break
         if ok and len(fams) == 2:
             regs = []
             for f in fams:
                 m = next(m for m in meta.fams[f] if m in elements)
-                rec = [rid for r, rid in P[m] if all(r[k] == a[k] for k in meta.el[m]["required"])]
+                rec = [rid for r, rid, *_ in P[m] if all(r[k] == a[k] for k in meta.el[m]["required"])]
                 regs.append(rec[0] if rec else None)
             ok = regs[0] is not None and regs[1] is not None and (regs[0], regs[1]) in ov
         if ok and len(fams) > 2:
@@ -255,7 +277,7 @@ def expected_rows(meta: Meta, group, P, ov_pairs):
 
 
 def norm(rows):
-    return sorted({tuple(r) for r in rows})
+    return sorted({tuple(r) for r in rows}, key=lambda t: tuple(-10 ** 9 if x is None else x for x in t))
 
 
 # ------------------------------------------------------------------------------------------------------------
@@ -270,7 +292,22 @@ def c_op(meta, o):
         asg = clist(f"({cstr(d)}, {cz(v)})" for d, v in o["vals"].items())
     else:
         asg = c_asg(meta, o["e"], o["vals"])
-    return f"(mkOp {KINDS[o['k']]} {cstr(o['e'])} (mkRec {asg} {copt(o['rid'], cn)}))"
+    return f"(mkOp {KINDS[o['k']]} {cstr(o['e'])} (mkRec {asg} {copt(o['rid'], cn)} {c_ts(o.get('ts'))}))"
+
+
+def c_ts(ts):
+    return "None" if ts is None else f"(Some ({cz(ts[0])}, {cz(ts[1])}))"
+
+
+def c_rrow(r):
+    """[vals, rid, ts] -> JoinCheck.rrow"""
+    return f"({c_zl(r[0])}, {copt(r[1], cn)}, {c_ts(r[2])})"
+
+
+def flat(r):
+    """[vals, rid, ts] -> vals + [rid, ts_begin, ts_end] for the oracle's comparisons"""
+    ts = r[2] if len(r) > 2 and r[2] is not None else [None, None]
+    return list(r[0]) + [r[1], ts[0], ts[1]]
 
 
 def c_zl(l):
@@ -334,7 +371,7 @@ def build_payloads(ctx, meta, groups, npop, k_groups, quick):
     return payloads, descr
 
 
-def check_population(ctx: Ctx, meta: Meta, pi, payload, d, res, hcases, qcases, defs, model=True):
+def check_population(ctx: Ctx, meta: Meta, pi, payload, d, res, hcases, qcases, defs, model=True, rcases=None, tcases=None):
     """oracle on one population's observations + emission of the model cases"""
     P = d["P"]
     geom = res["geometry"]
@@ -349,9 +386,13 @@ def check_population(ctx: Ctx, meta: Meta, pi, payload, d, res, hcases, qcases, 
                                             "undecided": geom["undecided"][:5]})
     env_c, ov_c = c_geom(geom)
     defs.append(f"Definition env_{pi} := mk_env {env_c}.\nDefinition ov_{pi} := mk_ov {ov_c}.")
-    want_tables = {e: norm([[r[k] for k in meta.cols(e)] + [rid] for r, rid in P[e]]) for e in ORDER}
-    want_ovl = {e: norm([[r[k] for k in meta.el[e]["required"]] + [p] for r, rid in P[e] if rid is not None
+    want_tables = {e: norm([flat([[r[k] for k in meta.cols(e)], rid, ts]) for r, rid, ts in P[e]]) for e in ORDER}
+    want_ovl = {e: norm([[r[k] for k in meta.el[e]["required"]] + [p] for r, rid, _ts in P[e] if rid is not None
                          for p in geom["env"][str(rid)]]) for e in ORDER if meta.el[e]["spatial"]}
+    if tcases is not None:
+        for a, b, outc in res.get("tjoins", []):
+            ctx.hist("explicit_temporal_join", f"{a}~{b}:{outc.split(':')[0]}")
+            tcases.append((f"({cstr(a)}, {cstr(b)}, {cn({'rows': 0, 'invalid': 2}.get(outc, 9))})", {"a": a, "b": b, "observed": outc}))
     exp_cache = {}
     ref = None
     for hi, (h, ho) in enumerate(zip(payload["histories"], res["histories"])):
@@ -364,7 +405,7 @@ def check_population(ctx: Ctx, meta: Meta, pi, payload, d, res, hcases, qcases, 
             ctx.hist("op", f"{o['k']}:{out.split(':')[0]}")
         # --- model cases: the history
         outs = clist(cn(OUT_CODE.get(x, 6)) for x in ho["outcomes"])
-        tabs = clist(f"({cstr(e)}, {clist(f'({c_zl(r[0])}, {copt(r[1], cn)})' for r in rows)})" for e, rows in ho["tables"].items())
+        tabs = clist(f"({cstr(e)}, {clist(c_rrow(r) for r in rows)})" for e, rows in ho["tables"].items())
         ovs = clist(f"({cstr(e)}, {clist(f'({c_zl(r[0])}, {cn(r[1])})' for r in rows)})" for e, rows in ho["overlaps"].items()
                     if ":" not in e)
         defs.append(f"Definition h_{tag} : list op := {clist(c_op(meta, o) for o in h['ops'])}.\n"
@@ -373,14 +414,22 @@ def check_population(ctx: Ctx, meta: Meta, pi, payload, d, res, hcases, qcases, 
                        {"population": pi, "history": hname, "ops": h["ops"], "regions": d["regions"], "outcomes": ho["outcomes"]}))
         # --- oracle: final tables are the intended records; the overlap tables are the envelopes of the stored regions
         for e in ORDER:
-            got = norm([r[0] + [r[1]] for r in ho["tables"].get(e, [])])
+            got = norm([flat(r) for r in ho["tables"].get(e, [])])
             if got != want_tables[e]:
                 ctx.oracle_fail(f"final-records:{hname}:{e}", {"population": pi, "history": hname, "ops": h["ops"], "regions": d["regions"],
                                                                "element": e, "want": want_tables[e], "got": got},
                                 "the stored dimension records after the history are not the records it leads to")
             if "records" in ho:
                 rq = ho["records"].get(e, {})
-                gotq = norm([r[0] + [r[1]] for r in rq.get("rows", [])]) if "rows" in rq else rq.get("err")
+                gotq = norm([flat(r) for r in rq.get("rows", [])]) if "rows" in rq else rq.get("err")
+                if rcases is not None and e in meta.el and meta.el[e]["has_own_table"]:
+                    if "rows" in rq:
+                        robs = f"(0%N, {clist(c_rrow(r) for r in rq['rows'])})"
+                    else:
+                        robs = f"({cn({'crash': 1, 'invalid': 2}.get(rq.get('err'), 9))}, [])"
+                    rcases.append((f"(ov_{pi}, (s_{tag}, {cstr(e)}, {robs}))",
+                                   {"population": pi, "history": hname, "element": e, "ops": h["ops"], "regions": d["regions"],
+                                    "returned": rq.get("rows", rq.get("err"))}))
                 ctx.count()
                 # a record is returned under its data ID, so only records whose own data ID is consistent can be
                 # (a visit_definition row linking an exposure and a visit of different physical filters cannot)
@@ -390,7 +439,7 @@ def check_population(ctx: Ctx, meta: Meta, pi, payload, d, res, hcases, qcases, 
                     key = ("rec", e)
                     if key not in exp_cache:
                         exp_cache[key] = {tuple(x[eg["names"].index(k)] for k in meta.cols(e)) for x in expected_rows(meta, eg, P, ovx)}
-                    wantq = [x for x in got if tuple(x[:-1]) in exp_cache[key]]
+                    wantq = [x for x in got if tuple(x[:-3]) in exp_cache[key]]
                 if gotq != wantq:
                     dsig = f"query_dimension_records:{e}"
                     if d["dangling"] and e == "subfilter" and isinstance(gotq, list) and all(x in gotq for x in wantq) \
@@ -465,7 +514,7 @@ def check_population(ctx: Ctx, meta: Meta, pi, payload, d, res, hcases, qcases, 
                 obs = f"({cn(code)}, [])"
             qcases.append((f"(ov_{pi}, (s_{tag}, {clist(cstr(n) for n in names)}, {obs}))", dict(case, observed=q.get("new", q.get("new_err")))))
         if hi == 0:
-            ctx.sample({"population": {e: [[list(r.values()), rid] for r, rid in P[e]] for e in ORDER if P[e]},
+            ctx.sample({"population": {e: [[list(r.values()), rid, ts] for r, rid, ts in P[e]] for e in ORDER if P[e]},
                         "regions": d["regions"], "history_lengths": [len(x["ops"]) for x in payload["histories"]],
                         "example_query": {"dimensions": d["groups"][0]["names"], "rows": exp_cache.get(tuple(d["groups"][0]["names"]))}}, cap=3)
 
@@ -480,7 +529,7 @@ def config_cases(meta: Meta):
     return cases
 
 
-def run_model(ctx, defs, hcases, qcases, ecases):
+def run_model(ctx, defs, hcases, qcases, ecases, rcases=(), tcases=(), telems=()):
     header = HEADER + "\n".join(defs) + "\n"
     bad = ctx.coq_cases("config", HEADER, ecases, "chk_elem jc_current", shard=400)
     for i in bad or []:
@@ -500,6 +549,25 @@ def run_model(ctx, defs, hcases, qcases, ecases):
     for i in bad or []:
         ctx.disagreement("fast-evaluator", small[i][1], "JoinCheck.fquery differs from Join.query (checker machinery, not the implementation)")
     ctx.hist("model", "fast evaluator cross-checked against the brute-force definition", len(small))
+    # query_dimension_records inside the model
+    if rcases:
+        bad = ctx.coq_cases("records", header, [c for c, _ in rcases], "fun c => chk_records jc_current (fst c) (snd c)",
+                            shard=max(50, (len(rcases) + 3) // 4), timeout=900)
+        for i in bad or []:
+            ctx.disagreement("records", rcases[i][1], "model (qrecords) and implementation (Butler.query_dimension_records) return different records")
+        bad = ctx.coq_cases("rfast", header, [c for c, _ in rcases], "fun c => chk_rfast jc_current (fst c) (snd c)",
+                            shard=max(50, (len(rcases) + 3) // 4), timeout=900)
+        for i in bad or []:
+            ctx.disagreement("fast-evaluator-records", rcases[i][1], "JoinCheck.fqrecords differs from Join.qrecords (checker machinery)")
+        ctx.hist("model", "record queries evaluated in the model", len(rcases))
+    if telems:
+        bad = ctx.coq_cases("tconfig", HEADER, list(telems), "chk_telem jc_current", shard=400)
+        for i in bad or []:
+            ctx.disagreement("config", {"case": telems[i]}, "the element's temporal family differs from the model's universe")
+    if tcases:
+        bad = ctx.coq_cases("tjoin", HEADER, [c for c, _ in tcases], "chk_tjoin jc_current", shard=400)
+        for i in bad or []:
+            ctx.disagreement("temporal-join", tcases[i][1], "explicit temporal join between two dimension elements: model and implementation differ")
 
 
 def corpus_payloads():
@@ -510,14 +578,14 @@ def corpus_payloads():
     return out
 
 
-def run_corpus(ctx, meta, groups, defs, hcases, qcases):
+def run_corpus(ctx, meta, groups, defs, hcases, qcases, rcases=None):
     gby = {tuple(g["names"]): g for g in groups}
     items = corpus_payloads()
     if not items:
         return
     payloads, descr = [], []
     for name, c in items:
-        P = {e: [(r[0], r[1]) for r in c["population"].get(e, [])] for e in ORDER}
+        P = {e: [(r[0], r[1], r[2] if len(r) > 2 else None) for r in c["population"].get(e, [])] for e in ORDER}
         gs = [gby[tuple(n)] for n in c["groups"] if tuple(n) in gby]
         payloads.append({"regions": c["regions"], "histories": c["histories"], "groups": [g["names"] for g in gs], "records_query": True})
         descr.append({"P": P, "groups": gs, "dangling": c.get("dangling", False), "regions": c["regions"]})
@@ -526,7 +594,8 @@ def run_corpus(ctx, meta, groups, defs, hcases, qcases):
         if stt != "ok":
             ctx.tie_broken("harness", f"corpus {name}", f"{stt}: {str(res)[:300]}")
             continue
-        check_population(ctx, meta, 900 + k, pl, d, res, hcases, qcases, defs)
+        d["egroups"] = element_groups(meta, groups)
+        check_population(ctx, meta, 900 + k, pl, d, res, hcases, qcases, defs, rcases=rcases)
     ctx.hist("corpus", "cases", len(items))
 
 
@@ -543,30 +612,75 @@ def element_groups(meta, groups):
     return out
 
 
+def shrink_failures(ctx: Ctx, meta, groups, limit=3):
+    """History shrinker for replays: for the first few distinct genuine failures, greedily remove operations from the
+    recorded history while the IMPLEMENTATION (re-run on a fresh repository each time) still shows the same kind of
+    failure; the result is added to the replay as `shrunk_ops`."""
+    gby = {tuple(g["names"]): g for g in groups}
+    egroups = element_groups(meta, groups)
+    jobs, reps, seen = [], [], set()
+    for sig, rp in ctx.oracle_failures:
+        if sig in seen or "ops" not in rp or "regions" not in rp:
+            continue
+        seen.add(sig)
+        base = {"regions": rp["regions"], "ops": rp["ops"], "budget_s": 100}
+        if sig.startswith("overlap-rows-stale"):
+            job = dict(base, kind="overlap", element=rp["element"])
+        elif sig.startswith("query-raises") and tuple(rp.get("dimensions", ())) in gby:
+            job = dict(base, kind="raises", group=gby[tuple(rp["dimensions"])], api=rp.get("api", "new"))
+        elif (sig.startswith("rows-differ") or sig.startswith("dangling-band")) and tuple(rp.get("dimensions", ())) in gby:
+            job = dict(base, kind="rows", group=gby[tuple(rp["dimensions"])], api=rp.get("api", "new"))
+        elif sig.startswith("query_dimension_records:") and egroups.get(rp.get("element")):
+            job = dict(base, kind="records", element=rp["element"], group=egroups[rp["element"]])
+        else:
+            continue
+        jobs.append(job)
+        reps.append(rp)
+        if len(jobs) >= limit:
+            break
+    if not jobs:
+        return
+    results = parallel_workers("c06_impl", "shrink", jobs, timeout=240)
+    for rp, (stt, res) in zip(reps, results):
+        if stt == "ok" and res.get("reproduced"):
+            rp["shrunk_ops"] = res["ops"]
+            rp["shrunk_note"] = (f"greedy removal of operations re-running the implementation: {len(rp['ops'])} -> {len(res['ops'])} "
+                                 f"operations in {res['trials']} trials; the failure predicate compares the implementation with a "
+                                 f"brute-force evaluation over the records it stored itself")
+            ctx.log(f"shrunk {rp.get('signature', '?')}: {len(rp['ops'])} -> {len(res['ops'])} operations ({res['trials']} trials)")
+        else:
+            rp["shrunk_note"] = f"not shrunk: {stt} {str(res)[:200]}"
+    ctx.hist("shrinker", "replays shrunk", sum(1 for r in reps if "shrunk_ops" in r))
+
+
 def _main(ctx: Ctx, quick: bool, model: bool = True):
     stt, info = run_worker("c06_impl", "list_groups", {}, timeout=300)
     if stt != "ok":
         ctx.tie_broken("harness", "list_groups", f"{stt}: {str(info)[:400]}")
-        return
+        return None, None
     meta = Meta(info["universe"])
     groups = info["groups"]
     ctx.hist("groups", "closed groups of the non-skypix dimensions", len(groups))
     ctx.hist("groups", "with two spatial families", sum(1 for g in groups if len(g["spatial"]) == 2))
-    defs, hcases, qcases = [], [], []
-    run_corpus(ctx, meta, groups, defs, hcases, qcases)
+    defs, hcases, qcases, rcases, tcases = [], [], [], [], []
+    run_corpus(ctx, meta, groups, defs, hcases, qcases, rcases)
     npop = 5 if quick else 8
     payloads, descr = build_payloads(ctx, meta, groups, npop, 16, quick)
     egroups = element_groups(meta, groups)
     for d in descr:
         d["egroups"] = egroups
+    if payloads:
+        payloads[0]["temporal_joins"] = True
     results = parallel_workers("c06_impl", "run_population", payloads, timeout=900 if quick else 2400)
     for pi, (pl, d, (stt, res)) in enumerate(zip(payloads, descr, results)):
         if stt != "ok":
             ctx.tie_broken("harness", "worker", f"population {pi}: {stt}: {str(res)[:400]}")
             continue
-        check_population(ctx, meta, pi, pl, d, res, hcases, qcases, defs)
+        check_population(ctx, meta, pi, pl, d, res, hcases, qcases, defs, rcases=rcases, tcases=tcases)
     if model:
-        run_model(ctx, defs, hcases, qcases, config_cases(meta))
+        telems = [f"({cstr(n)}, {cstr(e.get('temporal') or '')})" for n, e in meta.el.items()]
+        run_model(ctx, defs, hcases, qcases, config_cases(meta), rcases, tcases, telems)
+    return meta, groups
 
 
 def run(ctx: Ctx):
@@ -593,9 +707,14 @@ def run(ctx: Ctx):
     ok = ctx.build_props(extra_targets=["Model/JoinCheck.vo"])
     if not ok:
         coq_make(["Model/JoinCheck.vo", "Gen/Universes.vo"])
-    _main(ctx, ctx.quick)
+    meta, groups = _main(ctx, ctx.quick)
     if ctx.broken and not ctx.oracle_failures and ctx.quick:
         ctx.log("something no longer checks and the oracle held: running the thorough-size search on the implementation")
         ctx.cov["search"] = ("thorough-size generation (8 populations x 3-4 histories x all 460 closed groups) was run on the "
                              "implementation; the property oracle held on every case")
-        _main(ctx, quick=False, model=False)
+        meta, groups = _main(ctx, quick=False, model=False)
+    if ctx.oracle_failures and meta is not None:
+        try:
+            shrink_failures(ctx, meta, groups)
+        except Exception as exc:  # noqa: BLE001
+            ctx.log(f"shrinker failed: {type(exc).__name__}: {exc}")
